@@ -776,7 +776,7 @@ def run(rep):
     prepare()
     rng = rep.rng
     quick = rep.tier == "quick"
-    n_single, n_big, n_multi, n_obj, n_mal = (14000, 100, 3000, 2000, 2500) if quick else (400000, 1500, 80000, 50000, 60000)
+    n_single, n_big, n_multi, n_obj, n_mal = (14000, 100, 3000, 2000, 2500) if quick else (150000, 600, 30000, 20000, 25000)
     cases = corpus_cases()
     if not quick:
         # exhaustive small scope: every conversion x every flag subset x a few widths/precisions on fixed values
